@@ -221,14 +221,17 @@ ElemAttribute::startElement(StylesheetExecutionContext& executionContext) const
 
                     XalanDOMString&     newPrefix = newPrefixGuard.get();
 
-                    // If the prefix on the QName is xmlns, we cannot use it.
-                    const bool          fPrefixIsXMLNS =
-                        startsWith(origAttrName, DOMServices::s_XMLNamespaceWithSeparator);
+                    // If the prefix on the QName is xmlns, we cannot use it.  The
+                    // same is true for xml, unless the namespace is the XML namespace.
+                    const bool          fPrefixIsReserved =
+                        startsWith(origAttrName, DOMServices::s_XMLNamespaceWithSeparator) == true ||
+                        (startsWith(origAttrName, DOMServices::s_XMLStringWithSeparator) == true &&
+                         equals(attrNameSpace, DOMServices::s_XMLNamespaceURI) == false);
 
-                    // If there's a prefix, and it's not xmlns, then use
+                    // If there's a prefix, and it's not reserved, then use
                     // the prefix that's provided.
                     if(indexOfNSSep < origAttrNameLength &&
-                        fPrefixIsXMLNS == false)
+                        fPrefixIsReserved == false)
                     {
                         substring(origAttrName, newPrefix, 0, indexOfNSSep);
 
@@ -253,9 +256,9 @@ ElemAttribute::startElement(StylesheetExecutionContext& executionContext) const
 
                     if (newPrefix.empty() == true)
                     {
-                        // If there's a prefix, and it's xmlns, then strip it
+                        // If there's a prefix, and it's reserved, then strip it
                         // off...
-                        if (fPrefixIsXMLNS == true)
+                        if (fPrefixIsReserved == true)
                         {
                             attrName.erase(0, indexOfNSSep + 1);
                         }
@@ -530,14 +533,17 @@ ElemAttribute::execute(StylesheetExecutionContext&  executionContext) const
 
                     XalanDOMString&     newPrefix = newPrefixGuard.get();
 
-                    // If the prefix on the QName is xmlns, we cannot use it.
-                    const bool          fPrefixIsXMLNS =
-                        startsWith(origAttrName, DOMServices::s_XMLNamespaceWithSeparator);
+                    // If the prefix on the QName is xmlns, we cannot use it.  The
+                    // same is true for xml, unless the namespace is the XML namespace.
+                    const bool          fPrefixIsReserved =
+                        startsWith(origAttrName, DOMServices::s_XMLNamespaceWithSeparator) == true ||
+                        (startsWith(origAttrName, DOMServices::s_XMLStringWithSeparator) == true &&
+                         equals(attrNameSpace, DOMServices::s_XMLNamespaceURI) == false);
 
-                    // If there's a prefix, and it's not xmlns, then use
+                    // If there's a prefix, and it's not reserved, then use
                     // the prefix that's provided.
                     if(indexOfNSSep < origAttrNameLength &&
-                        fPrefixIsXMLNS == false)
+                        fPrefixIsReserved == false)
                     {
                         substring(origAttrName, newPrefix, 0, indexOfNSSep);
 
@@ -562,9 +568,9 @@ ElemAttribute::execute(StylesheetExecutionContext&  executionContext) const
 
                     if (length(newPrefix) == 0)
                     {
-                        // If there's a prefix, and it's xmlns, then strip it
+                        // If there's a prefix, and it's reserved, then strip it
                         // off...
-                        if (fPrefixIsXMLNS == true)
+                        if (fPrefixIsReserved == true)
                         {
                             attrName.erase(0, indexOfNSSep + 1);
                         }
